@@ -234,6 +234,14 @@ example : isValidInputValue exSchema (.list (.nonNull (.named "Int"))) (.list [.
 example : isValidInputValue exSchema (.named "Int") (.int 3000000000) = false := by decide +kernel
 example : isValidInputValue exSchema (.named "E") (.str "BLUE") = false := by decide +kernel
 example : strictlyTyped exSchema (.int 3000000000) (.named "Int") = true := by decide +kernel
+-- the spellings ParseFloat reads as NaN / ±Inf are non-numeric values: rejected for Int and Float, in any position
+example : strictlyTyped exSchema (.str "NaN") (.named "Int") = true ∧
+    isValidInputValue exSchema (.named "Int") (.str "NaN") = false ∧
+    isValidInputValue exSchema (.named "Int") (.str "-inf") = false ∧
+    isValidInputValue exSchema (.named "Float") (.str "+Inf") = false ∧
+    isValidInputValue exSchema (.named "Float") (.str "nan") = false ∧
+    isValidInputValue exSchema (.list (.named "Int")) (.list [.int 1, .str "Infinity"]) = false ∧
+    isValidInputValue exSchema (.named "In") (.obj [("b", .str "NAN")]) = false := by decide +kernel
 -- leniency is outside S
 example : strictlyTyped exSchema (.str "5") (.named "Int") = false ∧
     (coerceValue exSchema (.named "Int") (.str "5") == .int 5) = true := by decide +kernel
